@@ -1,4 +1,5 @@
 """pypyr pipeline yaml definition classes - domain specific language."""
+import copy
 import json
 import logging
 
@@ -695,7 +696,11 @@ class Step:
                     "Updating context with %s 'in' parameters.",
                     parameter_count,
                 )
-                context.update(self.in_parameters)
+                # in_parameters is part of the cached pipeline definition
+                # shared by every run of the pipeline. copy, so a step that
+                # mutates an in arg in place (append, contextmerge, py...)
+                # can't change the definition for the next run.
+                context.update(copy.deepcopy(self.in_parameters))
 
         logger.debug("done")
 
